@@ -264,6 +264,7 @@ type step struct {
 type seq struct {
 	Allow   map[string]bool // findings whose triggers may be generated
 	Encoder string
+	Links   []string // order in which the host enumerates its interfaces (a permutation of the universe)
 	Steps   []step // Steps[0] is the configuration the manager is started with (InitManager) at Steps[0].At
 	Final   step   // packets before Close; At = instant of Close
 	Pool    []*capharness.Packet
@@ -287,7 +288,7 @@ func (s *seq) allowText() string {
 
 func (s *seq) Canon() string {
 	var b strings.Builder
-	fmt.Fprintf(&b, "encoder=%s triggers-allowed=%s repeat=%d\n", s.Encoder, s.allowText(), s.Repeat)
+	fmt.Fprintf(&b, "encoder=%s triggers-allowed=%s repeat=%d host-links=%v\n", s.Encoder, s.allowText(), s.Repeat, s.Links)
 	pk := func(a []pktAct) string {
 		var x []string
 		for _, p := range a {
@@ -554,6 +555,11 @@ func drawSeq(t *rapid.T, allow map[string]bool) *seq {
 	s := &seq{Allow: allow, NExcl: map[string]int{}}
 	g := &gen{t: t, s: s, nExcl: s.NExcl}
 	s.Encoder = rapid.SampledFrom([]string{"lz4", "null"}).Draw(t, "encoder")
+	// the host's enumeration order (netlink: by interface index) is no function of the names
+	s.Links = universe
+	if rapid.IntRange(0, 2).Draw(t, "linkorder") != 0 {
+		s.Links = rapid.Permutation(universe).Draw(t, "links")
+	}
 	for p := 0; p < 2; p++ {
 		for r := 0; r < 3; r++ {
 			if p == 0 && r == 0 {
